@@ -126,9 +126,20 @@ class Render:
         if t == "do":
             if len(f[1]) >= 2 and self.alt():
                 self.n += 1
-                return "(with [_ (NULLCM) _ (do (setv with-tmp-%d 0) %s (NULLCM))] %s)" % (
-                    self.n, self.form(f[1][0]), seq(f[1][1:]))
+                if self.n % 2:
+                    return "(with [_ (NULLCM) _ (do (setv with-tmp-%d 0) %s (NULLCM))] %s)" % (
+                        self.n, self.form(f[1][0]), seq(f[1][1:]))
+                # a let around the forms; its variable is used after the first form (a staging form must not disturb
+                # the enclosing scope)
+                v = "stage-lv-%d" % self.n
+                return "(let [%s 7] %s (when (!= %s 7) (%s 999)) %s)" % (v, self.form(f[1][0]), v, self.log, seq(f[1][1:]))
             return "(do %s)" % seq(f[1])
+        if t == "ewc" and self.alt():
+            # eval-when-compile in a branch that never runs: it still has to run while compiling, and the form is None
+            # and effect-free at run time either way
+            inner = "(%s %s)" % (self.name(t), seq(f[1]))
+            self.n += 1
+            return ["(when False %s)", "(if True None %s)", "(cond False %s)", "(if None %s None)"][self.n % 4] % inner
         if t in ("eac", "ewc"):
             return "(%s %s)" % (self.name(t), seq(f[1]))
         if t == "domac":
@@ -289,7 +300,9 @@ def check_inprocess(chk, n_programs, depth):
              [("fn", 2, [("eac", [("log", 1), ("const", 5)])]), ("ewc", [("log", 2), ("const", 5)])],
              # rendered with every alternative spelling (see Render): mangled macro names, `with` managers
              [("eac", [("log", 1), ("const", 7)]), ("domac", [("log", 2)], ("log", 3)), ("ewc", [("log", 4)])],
-             [("do", [("ewc", [("log", 1)]), ("log", 2)]), ("do", [("eac", [("log", 3)]), ("domac", [("log", 4)], ("log", 5)), ("log", 6)])]]
+             [("do", [("ewc", [("log", 1)]), ("log", 2)]), ("do", [("eac", [("log", 3)]), ("domac", [("log", 4)], ("log", 5)), ("log", 6)])],
+             [("ewc", [("log", 1)]), ("ewc", [("log", 2)]), ("ewc", [("log", 3)]), ("ewc", [("log", 4)]),
+              ("do", [("eac", [("log", 5)]), ("log", 6)]), ("do", [("ewc", [("log", 7)]), ("log", 8)])]]
     n_fixed = len(progs)
     while len(progs) < n_programs:
         g = Gen(rng)
@@ -312,6 +325,7 @@ def check_inprocess(chk, n_programs, depth):
             chk.disagree("spec_ct/spec_rt of Cmd/StagingModel.v vs the prescription computed in props/c16.py",
                          to_coq(("do", p)), repr(m), repr((sct, srt, sval, clean)))
         r1, r2 = Render(rng=rng, variants=variants), Render(rng=rng, variants=variants)
+        r2.n = 1      # the alternative spellings rotate with the counter: start the second rendering elsewhere
         src_top = " ".join(r1.form(f) for f in p)
         src_val = "(setv RESULT (do %s))" % " ".join(r2.form(f) for f in p)
         for style, src in (("top-level", src_top), ("value-position", src_val)):
